@@ -38,8 +38,9 @@ def sint(v, sp):
     return ('-' if v < 0 else '') + (hex(abs(v)) if k == 1 else bin(abs(v)))
 
 
-def text32(e, sp):
+def text32(e, sp, immtext=None):
     n = e['name']
+    sint = (lambda v, _sp: immtext) if immtext is not None else globals()['sint']   # noqa: the operand given by name
     r = lambda k: sreg(e[k], sp + (7 if k == 'rs1' else (11 if k == 'rs2' else 0)))  # noqa
     if n == 'ebreak':
         return n
@@ -94,7 +95,7 @@ def elig_shard(asm, acc, sh, deadline):
         e = rv.expand16(i)
         sp = (h * 7 + sh['seed']) % 18
         batch.append((h, e, text32(e, sp), sp))
-        alone = sh['tier'] == 'thorough' or h % 16 == sh['seed'] % 16
+        alone = sh['tier'] == 'thorough' or ((h * 2654435761) >> 11) % 16 == sh['seed'] % 16
         if alone:
             o = monitors.observe(asm, batch[-1][2], compress=True, tap=False)
             if not o.ok:
@@ -103,20 +104,13 @@ def elig_shard(asm, acc, sh, deadline):
             else:
                 judge_line(acc, h, e, batch[-1][2], o.out, {'sp': sp, 'alone': True})
                 acc['ctr']['alone'] += 1
-        if (sh['tier'] == 'thorough' or h % 8 == sh['seed'] % 8) and ('imm' in e or 'shamt' in e):
+        if (sh['tier'] == 'thorough' or ((h * 2654435761) >> 9) % 6 == sh['seed'] % 6) and ('imm' in e or 'shamt' in e):
             # the same instruction with its immediate / shift amount given through a named constant (not label-dependent either),
             # assembled as its own program: earlier compress calls of this process defined other constants
             name = 'KC%d' % (h % 7)
             val = e.get('imm', e.get('shamt'))
-            e2 = dict(e)
-            line2 = text32(e, sp)
-            key = 'imm' if 'imm' in e else 'shamt'
-            # re-render with the constant name in place of the value
-            import re
-            spelled = sint(val if not (e['name'] == 'lui' and val < 0 and sp % 2) else val + (1 << 20), sp)
-            if line2.count(spelled) >= 1:
-                idx = line2.rfind(spelled)
-                line2 = line2[:idx] + name + line2[idx + len(spelled):]
+            line2 = text32(e, sp, immtext=name)
+            if True:
                 src = '%s = %d\n%s\n' % (name, val, line2)
                 lay2 = monitors.layout(asm, src.splitlines(), compress=True)
                 acc['n'] += 1
